@@ -17,11 +17,11 @@ import (
 // that a wrong decompressor fails loudly.
 //
 //	zz-rev: 'R' + reversed bytes
-//	zz-xor: 'X' + bytes xor 0x5A
+//	Zz-Xor: 'X' + bytes xor 0x5A
 //	zz-len: 'L' + 4-byte big-endian length + bytes
 
 // AlgoNames is the custom universe (gzip is added by the library itself).
-var AlgoNames = []string{"zz-rev", "zz-xor", "zz-len"}
+var AlgoNames = []string{"zz-rev", "Zz-Xor", "zz-len"}
 
 func algoEncode(name string, b []byte) []byte {
 	switch name {
@@ -32,7 +32,7 @@ func algoEncode(name string, b []byte) []byte {
 			out = append(out, b[i])
 		}
 		return out
-	case "zz-xor":
+	case "Zz-Xor":
 		out := make([]byte, 0, len(b)+1)
 		out = append(out, 'X')
 		for _, c := range b {
@@ -61,9 +61,9 @@ func algoDecode(name string, b []byte) ([]byte, error) {
 			out = append(out, b[i])
 		}
 		return out, nil
-	case "zz-xor":
+	case "Zz-Xor":
 		if b[0] != 'X' {
-			return nil, fmt.Errorf("zz-xor: bad magic %#x", b[0])
+			return nil, fmt.Errorf("Zz-Xor: bad magic %#x", b[0])
 		}
 		out := make([]byte, 0, len(b)-1)
 		for _, c := range b[1:] {
